@@ -315,7 +315,12 @@ impl Env {
         let fault_at = Arc::new(AtomicI64::new(-1));
         let fault_ctr = Arc::new(AtomicU64::new(0));
         let (fa, fc) = (fault_at.clone(), fault_ctr.clone());
-        log4rs::verif_hooks::set_rotate_point(Some(Arc::new(move |_step: u32| {
+        log4rs::verif_hooks::set_rotate_point(Some(Arc::new(move |step: u32| {
+            // the point between a compressing copy and the removal of its source is not a
+            // step of this slice's model (yet)
+            if step == u32::MAX - 1 {
+                return Ok(());
+            }
             let k = fc.fetch_add(1, Ordering::SeqCst) as i64;
             if k == fa.load(Ordering::SeqCst) {
                 Err(std::io::Error::new(std::io::ErrorKind::Other, "injected"))
